@@ -117,6 +117,8 @@ where
         };
 
         if next_offset == 0 {
+            // Keep the terminating slot so that callers can tell a zero-terminated chain from an `L::MAX`-terminated one.
+            self.data = Some(data);
             return None;
         } else if next_offset == L::max_value().to_usize().unwrap() {
             last = true;
@@ -173,7 +175,7 @@ where
         };
         match iter.data {
             Some(_) => iter.pos + Self::OFFSET_SIZE,
-            None => iter.pos + ceil_mul(T::from_bytes(last_payload).unwrap().size(), Self::ALIGN),
+            None => iter.pos + Self::OFFSET_SIZE + ceil_mul(T::from_bytes(last_payload).unwrap().size(), Self::ALIGN),
         }
     }
 }
